@@ -38,6 +38,12 @@ enum FailKind {
     FilterSend,
     FilterSpawn,
     FilterDiv,
+    /// an effect whose submission fails (`EffectBackend::execute` → Err → `report_effect_error`)
+    EffectSubmitError,
+    /// an effect that completes at once with an error (`Ok(Some(Err))` → `handle_effect_completion`)
+    EffectSyncError,
+    /// an effect that completes later with an error (`process_completions`)
+    EffectAsyncError,
 }
 
 impl FailKind {
@@ -58,6 +64,9 @@ impl FailKind {
             FailKind::FilterSend => "! [#'int { 7 sink, Ok }]",
             FailKind::FilterSpawn => "! [#'int { @{ 1 }, Ok }]",
             FailKind::FilterDiv => "! [#'int { [1, 0] __integer_divide__ }]",
+            FailKind::EffectSubmitError => "[\"/submit-error/x\" .0, 0, 0] __file_open__, 1",
+            FailKind::EffectSyncError => "[\"/sync-error/x\" .0, 0, 0] __file_open__, 1",
+            FailKind::EffectAsyncError => "[\"/async-error/x\" .0, 0, 0] __file_open__, 1",
         }
     }
 }
@@ -281,6 +290,9 @@ fn gen_scenario(r: &mut Rng) -> Scenario {
                 FailKind::FilterSend,
                 FailKind::FilterSpawn,
                 FailKind::FilterDiv,
+                FailKind::EffectSubmitError,
+                FailKind::EffectSyncError,
+                FailKind::EffectAsyncError,
             ]);
             let trigger = match r.below(5) {
                 0 => Trigger::Now,
@@ -362,6 +374,36 @@ fn gen_scenario(r: &mut Rng) -> Scenario {
 
 // ---------------------------------------------------------------------------------------------
 
+/// A deterministic effect backend: every `file_open` fails, in one of the three ways the environment
+/// distinguishes (by path prefix). Completions submitted "asynchronously" are handed out by the next
+/// `Environment::step`.
+struct FailingBackend {
+    pending: Vec<(usize, quiver_core::effects::EffectResult)>,
+}
+
+impl quiver_core::effects::EffectBackend for FailingBackend {
+    type E = quiver_io::NativeEffect;
+    fn execute(&mut self, process_id: usize, effect: Self::E) -> Result<Option<quiver_core::effects::EffectResult>, quiver_core::Error> {
+        use quiver_core::effects::EffectError;
+        let path = match &effect {
+            quiver_io::NativeEffect::FileOpen { path, .. } => path.clone(),
+            _ => vec![],
+        };
+        if path.starts_with(b"/submit-error") {
+            Err(quiver_core::Error::InvalidArgument("submission failed".to_string()))
+        } else if path.starts_with(b"/async-error") {
+            self.pending.push((process_id, Err(EffectError::NotFound("no such file".to_string()))));
+            Ok(None)
+        } else {
+            Ok(Some(Err(EffectError::NotFound("no such file".to_string()))))
+        }
+    }
+    fn process_completions(&mut self) -> Vec<(usize, quiver_core::effects::EffectResult)> {
+        std::mem::take(&mut self.pending)
+    }
+    fn close_resource(&mut self, _resource_id: quiver_core::value::ResourceId) {}
+}
+
 fn class_of(e: &quiver_core::Error) -> String {
     qverif::canon::error_class(e)
 }
@@ -379,12 +421,13 @@ fn render_value(v: &Value) -> String {
 fn real_worker_state(sim: &Sim, w: usize) -> String {
     let ex = sim.workers[w].verif_executor();
     let q: Vec<String> = ex.verif_queue().iter().map(|p| p.to_string()).collect();
-    let (sp, se, _ef) = ex.verif_parked();
+    let (sp, se, ef) = ex.verif_parked();
     let mut s = format!(
-        "queue=({}) selecting=({}) spawning=({})",
+        "queue=({}) selecting=({}) spawning=({}) effecting=({})",
         q.join(" "),
         se.iter().map(|p| p.to_string()).collect::<Vec<_>>().join(" "),
-        sp.iter().map(|p| p.to_string()).collect::<Vec<_>>().join(" ")
+        sp.iter().map(|p| p.to_string()).collect::<Vec<_>>().join(" "),
+        ef.iter().map(|p| p.to_string()).collect::<Vec<_>>().join(" ")
     );
     let mut pids = ex.verif_process_ids();
     pids.sort();
@@ -652,7 +695,7 @@ impl<'a> Runner<'a> {
                         if *had_result.get(&r).unwrap_or(&false) && p.frames.is_empty() {
                             "ranfinished".to_string()
                         } else {
-                            let (sp, se, _) = ex.verif_parked();
+                            let (sp, se, ef) = ex.verif_parked();
                             let end = match &p.result {
                                 Some(Ok(_)) => "(finishes)".to_string(),
                                 Some(Err(e)) => format!("(raises {})", class_of(e)),
@@ -661,6 +704,8 @@ impl<'a> Runner<'a> {
                                         "parks-selecting".to_string()
                                     } else if sp.contains(&r) {
                                         "parks-spawning".to_string()
+                                    } else if ef.contains(&r) {
+                                        "parks-effecting".to_string()
                                     } else {
                                         "yields".to_string()
                                     }
@@ -759,13 +804,22 @@ impl<'a> Runner<'a> {
 /// `random_choice` / `quiescent` are only used when no such timeout is pending).
 const FAR: u64 = 1_000_000_000_000;
 
+/// a process waits for an effect completion: the backend may hold it until the next `Environment::step`
+fn effect_pending(sim: &Sim) -> bool {
+    sim.workers.iter().any(|w| !w.verif_executor().verif_parked().2.is_empty())
+}
+
 /// idle, and no timeout within reach: nothing can happen any more without outside input
 fn settled(sim: &Sim) -> bool {
-    sim.idle() && sim.next_timeout().map(|t| t > sim.time_ms.saturating_add(FAR)).unwrap_or(true)
+    sim.idle() && !effect_pending(sim) && sim.next_timeout().map(|t| t > sim.time_ms.saturating_add(FAR)).unwrap_or(true)
 }
 
 /// `Sim::random_choice`, with the idle case handled here in saturating arithmetic
 fn next_choice(sim: &Sim, r: &mut Rng, p: &Policy) -> Choice {
+    if sim.idle() && effect_pending(sim) {
+        // the clock must not jump to the next timeout while a completion is waiting in the backend
+        return Choice::Env { visible: vec![usize::MAX; sim.n_workers()] };
+    }
     if sim.idle()
         && let Some(t) = sim.next_timeout()
     {
@@ -790,7 +844,10 @@ fn run_case(case: &Case, model: &mut Model, log: bool) -> Outcome {
         out.rejected = Some(format!("model init: {a}"));
         return out;
     }
-    let mut sim = Sim::new(n, case.quantum, qverif::run::builtins(), false).with_repl(HashMap::new());
+    let mut builtins = qverif::run::builtins();
+    quiver_io::attach_file_builtins(&mut builtins);
+    let mut sim = Sim::new(n, case.quantum, builtins, false).with_repl(HashMap::new());
+    sim.env.set_effect_backend(Box::new(FailingBackend { pending: vec![] }));
     let req = match sim.submit(&sc.source()) {
         Ok(Some(id)) => id,
         Ok(None) => {
@@ -1013,8 +1070,8 @@ fn main() {
         }
     }
     let n_corpus = cases.len();
-    let n_scen = opts.tier.pick(110u64, 4000);
-    let n_sched = opts.tier.pick(4u64, 16);
+    let n_scen = opts.tier.pick(110u64, 1300);
+    let n_sched = opts.tier.pick(4u64, 10);
     for i in 0..n_scen {
         let mut r = Rng::for_case(opts.seed ^ 0xC15, i);
         let sc = gen_scenario(&mut r);
